@@ -30,6 +30,7 @@ import (
 
 	kit "github.com/openbao/openbao/sdk/v2/helper/verifkit"
 	"github.com/openbao/openbao/sdk/v2/logical"
+	"github.com/openbao/openbao/v2/internal/helper/namespace"
 )
 
 const c02AllCaps = `"create","read","update","delete","list","patch","scan","sudo"`
@@ -53,6 +54,8 @@ type c02Run struct {
 	steps   []string
 	nreq    int
 	aborted bool
+	moves   int
+	sealed  bool
 }
 
 func (x *c02Run) step(format string, a ...any) {
@@ -283,7 +286,10 @@ func c02Mutations(base *c02Tok, rng *kit.Rand) []*c02Tok {
 	}
 	// one character of the string replaced (not among the last ones: unpadded base64
 	// ignores the unused bits of the final character, which would not be a mutation)
-	pos := 1 + rng.Intn(len(body)-5)
+	// (nor among the first three: they encode SignedToken.token_version, which is not part of
+	// the credential - the server neither signs nor reads it, so such a string still carries
+	// the same existing token)
+	pos := 4 + rng.Intn(len(body)-8)
 	repl := byte('A')
 	if body[pos] == 'A' {
 		repl = 'B'
@@ -740,7 +746,7 @@ func (x *c02Run) exec(q *c02Req) *c02Outcome {
 	evs := v.Probe.StopLog()
 	o := &c02Outcome{Resp: vErrStr(resp, err), OK: vOK(resp, err)}
 	if resp != nil {
-		o.Carries = resp.Auth != nil || resp.Secret != nil || resp.WrapInfo != nil
+		o.Carries = resp.Auth != nil || resp.Secret != nil || (resp.WrapInfo != nil && resp.WrapInfo.Token != "")
 		for k := range resp.Data {
 			if k != "error" {
 				o.Carries = true
@@ -1074,12 +1080,58 @@ func (x *c02Run) mutate() {
 			}})
 		}
 	}
+	// move a secrets mount (asynchronous: the harness waits for the reported success)
+	var movable []*c02Mount
+	for _, m := range w.Mounts {
+		if m.Mounted && !m.Auth {
+			movable = append(movable, m)
+		}
+	}
+	if len(movable) > 0 && rng.Chance(1, 2) {
+		m := kit.Pick(rng, movable)
+		x.moves++
+		to := fmt.Sprintf("moved%d/", x.moves)
+		if rng.Chance(1, 2) {
+			to = fmt.Sprintf("mv/%d/", x.moves)
+		}
+		cs = append(cs, cand{name: "remount", tok: admin(m.NS), mnt: m, apply: func() {
+			resp := v.MustDo(vReq{Op: logical.UpdateOperation, Path: "sys/remount", Token: v.Root, NS: m.NS, Data: map[string]any{"from": strings.TrimSuffix(m.Path, "/"), "to": strings.TrimSuffix(to, "/")}})
+			id, _ := resp.Data["migration_id"].(string)
+			done := false
+			for i := 0; i < 400 && !done; i++ {
+				st, err := v.Do(vReq{Op: logical.ReadOperation, Path: "sys/remount/status/" + id, Token: v.Root, NS: m.NS})
+				if vOK(st, err) && st != nil {
+					if info, ok := st.Data["migration_info"].(map[string]any); ok && fmt.Sprint(info["status"]) == "success" {
+						done = true
+						break
+					}
+					if info, ok := st.Data["migration_info"].(*MountMigrationInfo); ok && info != nil && info.MigrationStatus == "success" {
+						done = true
+						break
+					}
+				}
+				time.Sleep(5 * time.Millisecond)
+			}
+			if !done {
+				x.r.Inconc("%s: remount of %s did not report success", x.caseID, m.Abs)
+				x.aborted = true
+				return
+			}
+			m.Path, m.Abs = to, m.NS+to
+			x.digest = x.storageDigest()
+		}})
+	}
 	if len(cs) == 0 {
+		return
+	}
+	if !x.sealed && x.nreq > 200 && rng.Chance(1, 12) {
+		x.sealed = true
+		x.sealCycle()
 		return
 	}
 	c := kit.Pick(rng, cs)
 	var probe *c02Req
-	if strings.HasPrefix(c.name, "unmount") || strings.HasPrefix(c.name, "mount") {
+	if strings.HasPrefix(c.name, "unmount") || strings.HasPrefix(c.name, "mount") || c.name == "remount" {
 		m := c.mnt
 		if rng.Chance(1, 5) {
 			m = kit.Pick(rng, w.Mounts) // a sibling must be unaffected
@@ -1126,6 +1178,39 @@ func (x *c02Run) mutate() {
 	}
 }
 
+// sealCycle: a sealed core refuses everything (also declared unauthenticated paths);
+// after unsealing every verdict is as before (nothing cached survives, nothing is lost).
+func (x *c02Run) sealCycle() {
+	v := x.v
+	if err := TestCoreSeal(v.Core); err != nil {
+		x.r.Inconc("%s: seal failed: %v", x.caseID, err)
+		x.aborted = true
+		return
+	}
+	x.step("SEALED")
+	for i := 0; i < 12 && !x.aborted; i++ {
+		q := x.genReq(x.pickTok(), i%2 == 0, nil)
+		vd := &c02Verdict{Kind: "deny", Reason: "sealed", Op: q.Op}
+		if q.Tok != nil {
+			vd.TokState = q.Tok.Kind
+		}
+		if c02IsRelative(q.Path) {
+			vd.Reason = "early:relative-path"
+		}
+		o := x.exec(q)
+		x.step("sealed %s %s -> %s h=%d", q.Op, q.Path, o.Resp, len(o.Handlers))
+		x.check(q, vd, o, "sealed")
+	}
+	if err := v.Core.UnsealWithStoredKeys(namespace.RootContext(context.Background())); err != nil {
+		x.r.Inconc("%s: unseal failed: %v", x.caseID, err)
+		x.aborted = true
+		return
+	}
+	x.step("UNSEALED")
+	x.r.Count("seal_cycles", 1)
+	x.digest = x.storageDigest()
+}
+
 func c02EntPols(t *c02Tok) []string {
 	if t.Entity == nil {
 		return nil
@@ -1141,7 +1226,12 @@ func c02RunTopology(t *testing.T, r *kit.Result, seed int64, stream uint64, case
 	defer v.Close()
 	x := &c02Run{t: t, r: r, v: v, rng: rng, caseID: caseID, w: &c02World{Policies: map[string]*c02Policy{}}}
 	x.w.NSs, x.w.Mounts = c02Topology(rng)
+	t0 := time.Now()
 	x.build()
+	t1 := time.Now()
+	defer func() {
+		t.Logf("%s: %d namespaces %d mounts %d tokens; build %.1fs, total %.1fs, %d requests", caseID, len(x.w.NSs), len(x.w.Mounts), len(x.w.Toks), t1.Sub(t0).Seconds(), time.Since(t0).Seconds(), x.nreq)
+	}()
 	r.Count("topologies", 1)
 	r.Count("mounts", len(x.w.Mounts))
 	r.Count("namespaces", len(x.w.NSs))
@@ -1190,8 +1280,8 @@ func TestVerif_C02_Requests(t *testing.T) {
 	shard, _ := kit.Shard()
 	r := kit.NewResult(t, "c02-requests", seed, "generated namespace trees (depth<=3) x recording secrets/auth mounts at nested and sibling-prefix paths x generated ACL policies (exact, trailing-*, + segments, deny, sudo) x tokens in the states {absent, garbage, one character / one byte (head, middle, signature) flipped, truncated signature, revoked, expired, exhausted, last use, CIDR-bound, disabled entity, batch, batch mutated / expired / parent revoked, other namespace, root}; every request (plain, rule-directed and hostile forms: trailing and doubled slashes, ./.. segments, mount-boundary, namespace by header or by path prefix, unknown namespaces, restricted sys APIs in child namespaces, internal operations) is judged by the reference authoriser and compared with handler log, response class, tagged physical writes and a digest of the recording mounts' storage; configuration changes (policy rewrite/delete/recreate, token revocation, entity disable / entity policies, unmount / mount) are bracketed by the same request before and immediately after. A case is non-trivial when (a) a request was refused only because of the token state while its policies allow it, (b) an authorised request reached the handler, or (c) a mutation flipped the verdict of the very next request; distinct by (state, op, mount, backend path)")
 	defer r.Write(t)
-	ntopo := kit.N(10, 12)
-	nreq := kit.N(700, 2000)
+	ntopo := kit.N(24, 40)
+	nreq := kit.N(800, 2500)
 	for i := 0; i < ntopo; i++ {
 		caseID := fmt.Sprintf("topo:%d:%d", shard, i)
 		if !kit.WantCase(caseID) {
